@@ -292,7 +292,6 @@ def centre_images(rep, symm, system):
                 rot = symm.rot_orb_list[blk]
                 norb = rot[0, 0].shape[0]
                 amap = symm.atommap_list[blk][:, isym]
-                T = symm.T_list[blk][:, isym]
                 for a in range(len(amap)):
                     D = rot[a, isym]
                     for i in range(norb):
@@ -522,7 +521,7 @@ def check(pid, tier):
             rep.finish()
         raise
     finally:
-        sc.cleanup(keep=bool(rep.violations))
+        sc.cleanup(keep=any(k.startswith("spec:") for k, _ in rep.violations))      # TLC output is referenced only by spec:* violations
 
 
 def _check(rep, tier):
@@ -566,7 +565,7 @@ def _check(rep, tier):
     # ---------------- spec -> code : index maps
     counts = dict(maps=0, rmap=0, irr=0, irr_reduced=0, irr_exactly_one=0, shift_convention={}, structures=0, magnetic=0, hexagonal=0)
     if thorough:
-        sel = structs + cstructs + mstructs
+        sel = structs + cstructs + rng.sample(mstructs, min(len(mstructs), 40))
     else:
         sel = rng.sample(ostructs, min(len(ostructs), 4)) + rng.sample(hstructs, min(len(hstructs), 3)) + cstructs[:1] + rng.sample(mstructs, min(len(mstructs), 2))
     for st in sel:
@@ -624,7 +623,6 @@ def _check(rep, tier):
              counts=ncounts, max_residual=maxres)
     if recs:
         rep.sample(recs[0])
-    nsymm = len(recs)
 
     # ---------------- code -> spec : structures outside the catalogue + run residuals (+ the corrupted records of the self-test)
     nstruct = 60 if thorough else 8
